@@ -108,3 +108,60 @@ func VH_C03_writemsg_seals_header_session_counter() {
 	}
 	verifAssert(ss.count == oldCount+1, "C03: the send counter advances")
 }
+
+// Reading: each queued message is returned exactly once, whole (ReadMsg) or in
+// order across short reads (Read); a too-short ReadMsg buffer loses nothing.
+//
+//verif:prop C03
+//verif:bounds two queued messages of symbolic lengths 0..6 and symbolic content; ReadMsg / Read with buffers of symbolic size 0..8, three calls
+//verif:cover readmsg;read
+//verif:timeout 600
+func VH_C03_queued_messages_are_returned_once_in_order() {
+	ss := sessState(4)
+	ss.handleState = established
+	h := ss.handle
+	n1, n2 := verifPick("len1", 0, 1, 3, 6), verifPick("len2", 1, 2)
+	m1, m2 := verifBytes("msg1", n1), verifBytes("msg2", n2)
+	h.recv.C <- m1
+	h.recv.C <- m2
+	if verifBool("use-readmsg") {
+		verifCover("readmsg")
+		bl := verifPick("buflen", 0, 2, 3, 8)
+		buf := make([]byte, bl)
+		k, err := h.ReadMsg(buf)
+		if bl >= n1 {
+			verifAssert(err == nil && k == n1, "C03: ReadMsg returns the first queued message whole")
+			verifAssertBytesEq(buf[:k], m1, "C03: ReadMsg returns the first queued message's bytes")
+		} else {
+			verifAssert(err == ErrBufOverflow && k == 0, "C03: ReadMsg into a too-short buffer reports overflow and returns nothing")
+			// the message is not lost: a large enough buffer gets it next
+			big := make([]byte, 8)
+			k, err = h.ReadMsg(big)
+			verifAssert(err == nil && k == n1, "C03: a message that did not fit is returned by the next ReadMsg, whole")
+			verifAssertBytesEq(big[:k], m1, "C03: a message that did not fit is returned unchanged")
+		}
+		big := make([]byte, 8)
+		k, err = h.ReadMsg(big)
+		verifAssert(err == nil && k == n2, "C03: the second message follows, once")
+		verifAssertBytesEq(big[:k], m2, "C03: the second message is unchanged")
+		return
+	}
+	verifCover("read")
+	// stream reads with a small buffer: the concatenation of what is read is m1 || m2
+	var got []byte
+	bl := verifPick("buflen", 1, 2, 8)
+	for i := 0; i < 12 && len(got) < n1+n2; i++ {
+		buf := make([]byte, bl)
+		k, err := h.Read(buf)
+		verifAssert(err == nil, "C03: Read of queued data succeeds")
+		if err != nil {
+			return
+		}
+		got = append(got, buf[:k]...)
+	}
+	verifAssert(len(got) == n1+n2, "C03: stream reads return every queued byte exactly once")
+	if len(got) == n1+n2 {
+		verifAssertBytesEq(got[:n1], m1, "C03: stream reads return the first message's bytes first, in order")
+		verifAssertBytesEq(got[n1:], m2, "C03: stream reads then return the second message's bytes, in order")
+	}
+}
